@@ -401,6 +401,9 @@ enum Fault {
     GoalFailsFrom(usize, u8),
     Bias(f64),
     EmptyStarts,
+    /// a degenerate value of one of the planner's public numeric parameters: 0 = extension step
+    /// (connection radius for PRM), 1 = RRT* rewiring radius, 2 = PRM build time
+    Param(u8, f64),
 }
 
 fn run_fault<K: Kit>(sc0: &Scenario, f: &Fault, rep: &mut Report) {
@@ -410,6 +413,8 @@ fn run_fault<K: Kit>(sc0: &Scenario, f: &Fault, rep: &mut Report) {
     match f {
         Fault::GoalFailsAt(..) | Fault::GoalFailsFrom(..) => sc.params.bias = 1.0,
         Fault::Bias(b) => sc.params.bias = *b,
+        Fault::Param(0, v) => sc.params.step = *v,
+        Fault::Param(1, v) => sc.params.radius = *v,
         _ => {}
     }
     let ak = api_kit(sc.kit);
@@ -422,6 +427,7 @@ fn run_fault<K: Kit>(sc0: &Scenario, f: &Fault, rep: &mut Report) {
         Fault::GoalFailsFrom(k, kind) => format!("goal-sampler-fails-from-call{}/kind{kind}", if *k == 0 { "0" } else { "k" }),
         Fault::Bias(b) => format!("goal-bias={b}"),
         Fault::EmptyStarts => "empty-start-list".to_string(),
+        Fault::Param(w, v) => format!("{}={v}", ["step", "search-radius", "build-time"][*w as usize]),
     };
     let r = guarded(|| {
         let mut rig = Rig::<K>::new(&sc, false);
@@ -436,10 +442,10 @@ fn run_fault<K: Kit>(sc0: &Scenario, f: &Fault, rep: &mut Report) {
         let mut results: Vec<String> = Vec::new();
         rig.drv.setup(pd, rig.world.clone());
         // long scripts: the fault, not exhaustion, must end the call
-        let letters: Vec<u8> = ak.build.iter().cycle().take(12).cloned().collect();
+        let letters: Vec<u8> = ak.build.iter().cycle().take(if matches!(f, Fault::Param(..)) { 40 } else { 12 }).cloned().collect();
         rig.space.push_script(&letters);
         if pk == Pk::Prm {
-            rig.drv.set_prm_timeout(crate::drv::iters_secs(8));
+            rig.drv.set_prm_timeout(if let Fault::Param(2, v) = f { *v } else { crate::drv::iters_secs(8) });
             results.push(match rig.drv.construct_roadmap() {
                 Ok(()) => "Ok".into(),
                 Err(e) => err_name(&e).into(),
@@ -577,6 +583,16 @@ pub fn explore(prop: &'static str, tier: &'static str) -> Report {
             faults.push(Fault::Bias(b));
         }
         faults.push(Fault::EmptyStarts);
+        // degenerate numeric parameters: whatever a planner makes of them, every call comes back without unwinding
+        for v in [0.0, -0.5, 1e-18, f64::MIN_POSITIVE, f64::INFINITY, f64::NAN] {
+            faults.push(Fault::Param(0, v));
+        }
+        for v in [0.0, -1.0, f64::INFINITY, f64::NAN] {
+            faults.push(Fault::Param(1, v));
+        }
+        for v in [-1e-9, -1.0, f64::NEG_INFINITY, 0.0] {
+            faults.push(Fault::Param(2, v));
+        }
         let fjobs: Vec<(Scenario, Fault)> = KITS.iter().flat_map(|kit| Pk::ALL.iter().map(move |pk| api_scenario(kit, *pk))).flat_map(|sc| faults.iter().map(move |f| (sc.clone(), f.clone())).collect::<Vec<_>>()).collect();
         let fr = fjobs
             .par_iter()
@@ -584,6 +600,11 @@ pub fn explore(prop: &'static str, tier: &'static str) -> Report {
                 let mut rep = Report::new();
                 if sc.params.pk == Pk::Prm && matches!(f, Fault::GoalFailsAt(..) | Fault::GoalFailsFrom(..) | Fault::Bias(_)) {
                     return rep; // PRM has neither goal sampling nor a bias
+                }
+                match f {
+                    Fault::Param(1, _) if sc.params.pk != Pk::Star => return rep,
+                    Fault::Param(2, _) if sc.params.pk != Pk::Prm => return rep,
+                    _ => {}
                 }
                 with_kit!(sc.kit, run_fault(sc, f, &mut rep));
                 rep
